@@ -48,6 +48,9 @@ def answerPca (fs : List (String × String)) : String :=
       -- 2. what the public API handed to the solver
       let cpre := cmpMat pre.get CU.get (εrel * scale)
       let tag (c : Cmp) : String := if exact && !c.isExact then "INEXACT-" ++ c.show else c.show
+      --   `exactmean=1`: only the mean is free of rounding (N = 2^m, feature values of up to 40 bits): equality demanded there
+      let exactMean := exact || get "exactmean" == some "1"
+      let tagMean (c : Cmp) : String := if exactMean && !c.isExact then "INEXACT-" ++ c.show else c.show
       -- 3. solver contract on what it reads
       let seen := DMat.ofFn (if solver == "rand" then upperView pre.get else denseSym pre.get)
       --    eigen-certificate tolerance: 2^-30 Dense, 2^-20 Randomized (single Gram–Schmidt pass: orthogonality loss
@@ -80,7 +83,7 @@ def answerPca (fs : List (String × String)) : String :=
         else s!"ok:{showMag vdef}"
       let cs := [cmean, ccov, cpre, cP, cmu, cy]
       let nexact := (cs.filter Cmp.isExact).length
-      s!"mean={tag cmean} cov={tag ccov} pre={tag cpre} contract={contract.text} proj={projTxt} eig={ce.text} robust={robTxt} y={cy.show} var={varTxt} cmp=exact:{nexact},approx:{cs.length - nexact + 6}"
+      s!"mean={tagMean cmean} cov={tag ccov} pre={tag cpre} contract={contract.text} proj={projTxt} eig={ce.text} robust={robTxt} y={cy.show} var={varTxt} cmp=exact:{nexact},approx:{cs.length - nexact + 4}"
     | _, _, _, _, _, _, _, _, _ => "bad-observation"
   | _, _, _, _, _ => "bad-case"
 
